@@ -1,6 +1,6 @@
 (* Hat functions of Model/Gram.v: the evaluation variants of the Python code agree (all points, including the
    nodes and the cell boundaries), and each hat is the piecewise polynomial used in the Gram-matrix theorems. *)
-From Coq Require Import ZArith List QArith Qcanon Bool Lia Lra Lqa.
+From Coq Require Import ZArith List QArith Qcanon Bool Lia Lqa.
 From SG Require Import Base.QcUtil Base.PolyInt Model.Gram.
 Import ListNotations.
 Open Scope Qc_scope.
